@@ -116,7 +116,7 @@ Example C06_nonvacuous_runtime_error :
      OpI (Some [SOther (TExpr (EAtom (AId "x")))]);
      OpI (Some [SUse "m"; SOther (TExpr (EAdd (AId "a") (ANum 1)))])]
     = ["err|runtime:DivisionByZero|1";
-       "imp=[];vars=[];fns=[];units=[];dims=[];ureps=[];vals=[]";
+       "imp=[];vars=[];fns=[];units=[];dims=[];ureps=[];vals=[];ans=[-]";
        "err|type:UnknownIdentifier|";
        "ok|2|-|"].
 Proof. vm_compute. reflexivity. Qed.
